@@ -160,6 +160,9 @@ Viol(pre, a, r, post, dig0, dig1, st1, st2) ==
   \cup { <<"C09", "successful-or-async-receive-keeps-app-state">> : x \in
            IF a.a = "RecvV1" /\ r = "ok" /\ OutcomeOf(P.data[1]) # "fail"
               /\ ps.app # cs.app \cup AppWrites(P, {1}) THEN {1} ELSE {} }
+  \cup { <<"C09", "v2-single-payload-outcome-decides-app-state">> : x \in
+           IF a.a = "RecvV2" /\ r = "ok" /\ Len(P.data) = 1
+              /\ ps.app # (IF OutcomeOf(P.data[1]) = "fail" THEN cs.app ELSE cs.app \cup AppWrites(P, {1})) THEN {1} ELSE {} }
   \cup { <<"C09", "app-state-changes-only-by-receive">> : x \in
            IF ~(IsRecv(a) /\ r = "ok") /\ ps.app # cs.app THEN {1} ELSE {} }
   \cup { <<"C10", "all-or-nothing-app-state">> : x \in
